@@ -604,6 +604,19 @@ func run(s *core.Shard) {
 			n = k
 		}
 	}
+	for i := 0; i < 140; i++ {
+		if !s.Mine(n + i) {
+			continue
+		}
+		if !s.Begin(fmt.Sprintf("diamond/%d", i)) {
+			continue
+		}
+		c := diamond(i)
+		if judge(s, c) {
+			s.Cover("placement", c.Shape)
+			s.Nontrivial(c.Ext.Key())
+		}
+	}
 	for i := 0; i < n; i++ {
 		if !s.Mine(i) {
 			continue
